@@ -1,12 +1,13 @@
 SPECIFICATION Spec
 CONSTANTS
-  MaxLen = 6
+  MaxLen = 5
   MaxClock = 2
   Rings <- MCRings
   MaxB = 2
   MaxJ = 1
   Strict = FALSE
   JumboInside = FALSE
+  ExportUnspecLen = 4
   Variant = "code"
 INVARIANTS Refinement IdempotentInv RunAgrees Tight AfterSort Lemmas RegionAgree RingInv
 
